@@ -73,6 +73,11 @@ BUILT = {
    text="All token sequences up to length 3 (quick) / 4 (thorough) over a 67-exemplar token alphabet (every keyword, builtin, operator, delimiter, literal kind, comments, newline, an illegal byte, unterminated string and comment), glued and spaced, are parsed in both lexer modes; every nil-returning parse path must be justified by an error or a continuation request, which is decided by a structural dump of accepted trees; printing in normal/compact/all-parens mode must not panic. rapid adds 40-token sequences, every truncation and random byte mutations (NUL, 0xff, quotes, brackets) of examples/ and tests/; thorough adds coverage-guided fuzzing.",
    note="Termination is observed via the driver's timeout with the in-flight case stored and re-run alone. The echo check only requires the echoed text to occur in the input.",
    ref="DESIGN.md section 3, C08"),
+ "C09": dict(level="exploration",
+   technique="rapid-generated programs x configurations, one child process per case under GOMEMLIMIT/RLIMIT_AS; oracle = child exits by itself, wall time <= deadline + 3 s, peak RSS <= 3 x limit + 128 MiB, unbounded recursion ends as 'max depth'",
+   text="Each generated case is a program from the families the property names (non-terminating loops with and without allocation, direct / mutual / closure / self recursion, growth operators with huge and overflowing operands and doubling loops, source text nested 10^2 .. 2*10^6 deep in 12 syntactic ways, sleep, mixtures) together with a depth limit (10 .. default), a deadline (1 ms .. 1 s), a memory limit (64 .. 256 MiB) and the program format. It runs in its own child process through repl.EvalStringWithOption, because the failures in question (Go stack overflow, out of memory) kill the process and cannot be recovered in-process; exit status, signal, wall time and peak RSS are read from the child and a report says which guard fired.",
+   note="Timing and memory are measured: tolerances are wide and a case over the time bound is re-run alone twice before it counts. Cancellation instants are sampled, not enumerated.",
+   ref="DESIGN.md section 3, C09"),
  "C11": dict(level="exploration",
    technique="model-based testing: exhaustive breadth-first exploration of reachable map states (contents x representation) for a 7-key universe + rapid stateful operation sequences through grol source, oracle = sorted association-list reference map",
    text="Every reachable (contents, internal representation) state of maps over 7 mixed-type keys (including the order-equivalent keys 2 and 2.0) and 2 values is reached breadth-first and every operation (Set, Delete, Rest, Range for all bounds, Append in both directions with 9 operands, Get, First, Len, Inspect, Equals/Cmp) is applied in it and compared with a sorted association-list model, so every position x representation x promotion/demotion boundary at the 4-pair threshold is hit; rapid then drives 10-60 step sequences of the same operations through grol source on a 45-key universe with a model check after every statement.",
